@@ -1,10 +1,22 @@
 """C24 — f-strings (error and table clauses only): conversions, `=` debugging, brace escapes, named escapes, compilation wiring."""
+CANON = True
+
 import ast
 
-from .. import compq, pyq, readerq
+from .. import compq, pm, pyq, readerq
 from ..pysrc import dotted, fold, norm, flat
 from ..readerq import HR
 from .c19 import check as _c19  # noqa: F401  (EOF clauses are decided under C19)
+
+
+def _guarded(node, func, pats):
+    """Every pattern occurs among the path conditions of node (in this order)."""
+    gs = pyq.guard_texts(node, func)
+    i = 0
+    for g in gs:
+        if i < len(pats) and g == pats[i]:
+            i += 1
+    return i == len(pats)
 
 
 def check(ctx, src):
@@ -21,13 +33,19 @@ def check(ctx, src):
     ok = g is not None and set(fold(g.test.comparators[0])) == {None, "s", "r", "a"} and "_syntax_error" in norm(g.body[0])
     ctx.check(ok, "FS-CONV", f"{compq.CP}|compile_fcomponent|allowed", "the accepted conversion characters are not exactly None, s, r, a (or the rejection is not a Hy syntax error)", compq.CP, cf.lineno,
               witness='f"{x !z}" compiles with conversion 122 -> ValueError from compile()', detail="None s r a")
-    cv = pyq.contains(cf, lambda n: isinstance(n, ast.Assign) and norm(n.targets[0]) == "conversion")
-    ctx.check(cv is not None and norm(cv.value) == "ord(fcomponent.conversion) if fcomponent.conversion else -1", "FS-CONV", f"{compq.CP}|compile_fcomponent|code", "conversion code must be ord(c) or -1", compq.CP, cf.lineno, detail="ord(c) / -1")
+    node0 = pyq.contains(cf, lambda n: isinstance(n, ast.Call) and any(k.arg == "conversion" for k in n.keywords) and "FormattedValue" in flat(n.func))
+    cvar = next((k.value.id for k in node0.keywords if k.arg == "conversion" and isinstance(k.value, ast.Name)), None) if node0 is not None else None
+    cvs = [n for n in ast.walk(cf) if isinstance(n, ast.Assign) and isinstance(n.targets[0], ast.Name) and n.targets[0].id == cvar]
+    by = {str(norm(n.value)): [str(g) for g in pyq.guard_texts(n, cf)] for n in cvs}
+    ctx.check(set(by) == {"ord(fcomponent.conversion)", "-1"} and by["ord(fcomponent.conversion)"][-1:] == ["fcomponent.conversion"] and by["-1"][-1:] == ["not fcomponent.conversion"], "FS-CONV", f"{compq.CP}|compile_fcomponent|code", "conversion code must be ord(c) or -1", compq.CP, cf.lineno, detail="ord(c) / -1")
     node = pyq.contains(cf, lambda n: isinstance(n, ast.Call) and isinstance(n.func, ast.IfExp) and "asty.FormattedValue" in norm(n.func))
     kw = {k.arg: norm(k.value) for k in node.keywords if k.arg} if node is not None else {}
-    ctx.check(kw == {"value": "value.force_expr", "conversion": "conversion", "format_spec": "spec"}, "FS-COMPILE", f"{compq.CP}|compile_fcomponent|fields", f"FormattedValue fields are {kw}", compq.CP, cf.lineno, detail=str(kw))
-    sp = pyq.contains(cf, lambda n: isinstance(n, ast.If) and norm(n.test) == "elts")
-    ctx.check(sp is not None and norm(sp.body[0]) == "spec = asty.JoinedStr(fcomponent, values=elts)" and norm(sp.orelse[0]) == "spec = None", "FS-COMPILE", f"{compq.CP}|compile_fcomponent|spec", "the format spec must be a JoinedStr of the remaining components, or None", compq.CP, cf.lineno, detail="JoinedStr / None")
+    CB = pm.Binder()
+    CB.find(cf, "value = self.compile(root)")
+    spec_ok = CB.find(cf, "if elts:\n    spec = asty.JoinedStr(fcomponent, values=elts)\nelse:\n    spec = None") is not None
+    ctx.check(node is not None and set(kw) == {"value", "conversion", "format_spec"} and CB.eq(node.keywords[[k.arg for k in node.keywords].index("value")].value, "value.force_expr")
+              and isinstance(kw["conversion"].node, ast.Name) and kw["conversion"].node.id == cvar and isinstance(kw["format_spec"].node, ast.Name) and kw["format_spec"].node.id == CB.name("spec"), "FS-COMPILE", f"{compq.CP}|compile_fcomponent|fields", f"FormattedValue fields are {kw}", compq.CP, cf.lineno, detail=str(kw))
+    ctx.check(spec_ok, "FS-COMPILE", f"{compq.CP}|compile_fcomponent|spec", "the format spec must be a JoinedStr of the remaining components, or None", compq.CP, cf.lineno, detail="JoinedStr / None")
     split = pyq.contains(cf, lambda n: isinstance(n, ast.Assign) and norm(n) == "root, *rest = fcomponent")
     ctx.check(split is not None, "FS-COMPILE", f"{compq.CP}|compile_fcomponent|value-then-spec", "the first child is the value, the rest the spec", compq.CP, cf.lineno, detail="root, *rest")
     fs = src.py("hy/models.py").func("FString.__new__")
@@ -40,13 +58,20 @@ def check(ctx, src):
     tx = [norm(s) for s in b]
     fmt = next((s for s in b if isinstance(s, ast.If) and norm(s.test) == "self.peek_and_getc(':')"), None)
     ctx.require(fmt is not None, "read_fcomponent: format-spec branch not found")
-    dbg = [s for s in fmt.orelse if isinstance(s, ast.If) and norm(s.test) == "has_debug and conversion is None"]
-    ctx.check(len(dbg) == 1 and norm(dbg[0].body[0]) == "conversion = 'r'" and not pyq.contains(fmt.body, lambda n: isinstance(n, ast.Assign) and norm(n.targets[0]) == "conversion"), "FS-DEBUG", f"{HR}|read_fcomponent|implicit r",
+    B = pm.Binder()
+    bang = B.find(rf, "if self.peek_and_getc('!'):\n    conversion = self.getc()")
+    ctx.require(bang is not None, "read_fcomponent: conversion branch not found")
+    cvar = B.name("conversion")
+    dbg = B.findall(rf, "if has_debug and conversion is None:\n    conversion = 'r'")
+    colon = "self.peek_and_getc(':')"
+    ctx.check(len(dbg) == 1 and any(g == "not " + colon for g in pyq.guard_texts(dbg[0], rf)), "FS-DEBUG", f"{HR}|read_fcomponent|implicit r",
               "the implicit `!r` of `=` must be added exactly in the branch without any `:` (not merely when the spec is empty)", HR, fmt.lineno, witness='f"{s =:}" gives s=\'a\' instead of s=a', detail="else-branch of peek_and_getc(':')")
-    others = [n for n in ast.walk(rf) if isinstance(n, ast.Assign) and norm(n.targets[0]) == "conversion" and n not in [dbg[0].body[0]] + []] if dbg else []
-    ctx.check(sorted(norm(o.value) for o in others) == ["None", "self.getc()"], "FS-DEBUG", f"{HR}|read_fcomponent|conversion sources", f"conversion is assigned from {[norm(o.value) for o in others]}", HR, rf.lineno, detail="None; getc() after '!'")
-    dp = pyq.contains(rf, lambda n: isinstance(n, ast.If) and norm(n.test) == "self.peek_and_getc('=')")
-    ctx.check(dp is not None and "dbg_prefix = space_before + form_text + space_between + '=' + space_after" in [norm(s) for s in dp.body] and "values.append(self.fill_pos(String(dbg_prefix), start))" in [norm(s) for s in dp.body], "FS-DEBUG",
+    if dbg:
+        B.eq(dbg[0], "if has_debug and conversion is None:\n    conversion = 'r'")
+    srcs = sorted(str(norm(n.value)) for n in ast.walk(rf) if isinstance(n, ast.Assign) and isinstance(n.targets[0], ast.Name) and n.targets[0].id == cvar)
+    ctx.check(srcs == ["'r'", "None", "self.getc()"], "FS-DEBUG", f"{HR}|read_fcomponent|conversion sources", f"conversion is assigned from {srcs}", HR, rf.lineno, detail="None; getc() after '!'; 'r' for a bare `=`")
+    dp = B.find(rf, "if self.peek_and_getc('='):\n    has_debug = True\n    ...")
+    ctx.check(dp is not None and B.find(dp, "space_after = self.slurp_space()\ndbg_prefix = space_before + form_text + space_between + '=' + space_after\nvalues.append(self.fill_pos(String(dbg_prefix), start))") is not None, "FS-DEBUG",
               f"{HR}|read_fcomponent|verbatim text", "`=` must emit the field text verbatim (with its surrounding spaces) before the value", HR, rf.lineno, detail="space_before + form_text + space_between + '=' + space_after")
     sav = pyq.contains(rf, lambda n: isinstance(n, ast.With) and "self.saving_chars() as form_text" in norm(n) and norm(n.body[0]) == "model = self.parse_one_form()")
     ctx.check(sav is not None, "FS-FIELD", f"{HR}|read_fcomponent|one form", "a field holds exactly one form, read with its text saved", HR, rf.lineno, detail="with saving_chars(): parse_one_form()")
@@ -56,15 +81,21 @@ def check(ctx, src):
     ctx.check(junk is not None, "FS-FIELD", f"{HR}|read_fcomponent|junk", "anything but `}` after the field must be a LexException", HR, fmt.lineno, detail="trailing junk")
     fc = pyq.contains(rf, lambda n: isinstance(n, ast.Call) and dotted(n.func) == "FComponent")
     kw = {k.arg: norm(k.value) for k in fc.keywords} if fc is not None else {}
-    ctx.check(fc is not None and norm(fc.args[0]) == "(model, *format_components)" and kw == {"conversion": "conversion", "expression": "form_text", "is_tstring": "fstring_mode == 't'"}, "FS-FIELD", f"{HR}|read_fcomponent|component",
+    B.find(rf, "with self.saving_chars() as form_text:\n    model = self.parse_one_form()")
+    ctx.check(fc is not None and B.eq(fc, "FComponent((model, *format_components), conversion=conversion, expression=form_text, is_tstring=fstring_mode == 't')"), "FS-FIELD", f"{HR}|read_fcomponent|component",
               f"FComponent is built with {kw}", HR, rf.lineno, detail="(model, *spec), conversion, expression, is_tstring")
     # --- braces
     rc = rq.methods["read_chars_until"][1]
     t = flat(rc)
-    ctx.check("if 'r' not in prefix and s[-3:] == ['\\\\', 'N', '{']: in_named_escape = True" in t, "FS-BRACES", f"{HR}|read_chars_until|named escape", "`\\N{` starts a named escape only in non-raw strings", HR, rc.lineno,
+    esc_on = pm.find(rc, "in_named_escape = True")
+    ctx.check(esc_on is not None and _guarded(esc_on, rc, ["c == '{'", "'r' not in prefix and s[-3:] == ['\\\\', 'N', '{']"]), "FS-BRACES", f"{HR}|read_chars_until|named escape", "`\\N{` starts a named escape only in non-raw strings", HR, rc.lineno,
               witness='rf"\\N{x}" keeps the text \\N{x} instead of evaluating x', detail="'r' not in prefix and s[-3:] == \\N{")
-    ctx.check("elif not self.peek_and_getc('{'): s.pop() break" in t, "FS-BRACES", f"{HR}|read_chars_until|open brace", "`{{` is a literal brace; a single `{` ends the literal chunk and starts a field", HR, rc.lineno, detail="{{ vs {")
-    ctx.check("elif not self.peek_and_getc('}'): raise SyntaxError" in t and "if in_named_escape: in_named_escape = False" in t, "FS-BRACES", f"{HR}|read_chars_until|close brace", "`}}` is a literal brace; a single `}` is an error unless it closes a named escape", HR, rc.lineno, detail="}} vs }")
+    brk = pm.find(rc, "s.pop()\nbreak")
+    ctx.check(brk is not None and _guarded(brk, rc, ["c == '{'", "'r' in prefix or s[-3:] != ['\\\\', 'N', '{']", "not self.peek_and_getc('{')"]), "FS-BRACES", f"{HR}|read_chars_until|open brace", "`{{` is a literal brace; a single `{` ends the literal chunk and starts a field", HR, rc.lineno, detail="{{ vs {")
+    err = pyq.contains(rc, lambda n: isinstance(n, ast.Raise) and "single '}}' is not allowed" in flat(n))
+    esc_off = pm.find(rc, "in_named_escape = False")
+    inner_off = [n for n in pm.findall(rc, "in_named_escape = False") if pyq.guards(n, rc)]
+    ctx.check(err is not None and _guarded(err, rc, ["c == '}'", "not in_named_escape", "not self.peek_and_getc('}')"]) and any(_guarded(n, rc, ["c == '}'", esc_on.targets[0].id if esc_on is not None else "?"]) for n in inner_off), "FS-BRACES", f"{HR}|read_chars_until|close brace", "`}}` is a literal brace; a single `}` is an error unless it closes a named escape", HR, rc.lineno, detail="}} vs }")
     ru = rq.methods["read_fcomponents_until"][1]
     lp = next((s for s in ru.body if isinstance(s, ast.While)), None)
     tl = [norm(s) for s in lp.body] if lp else []
